@@ -152,6 +152,11 @@ func (x *xfake) GetBlock(ctx context.Context, c cid.Cid) (blocks.Block, error) {
 	if x.callErr || len(x.script) == 0 {
 		return nil, errX
 	}
+	for _, a := range x.script { // an exchange that has the block answers with it
+		if a.blk.Cid().Equals(c) {
+			return a.blk, nil
+		}
+	}
 	return x.script[0].blk, nil
 }
 
